@@ -139,9 +139,11 @@ def Machine.isAccepting (M : Machine) (t : Int) : Bool :=
   t ≥ 0 && (M.st t.toNat).accepting
 
 /-- `immediate_done` of `_generate_transition_body`. -/
-def Machine.immediateDone (M : Machine) (o : SemOpts) (a : Arm) : Bool :=
-  a.target ≥ 0 && M.isAccepting a.target && !o.strictDone &&
-    (M.st a.target.toNat).arms.all (·.err)
+def Machine.immediateDone (M : Machine) (o : SemOpts) (a : Arm) (fromEnd : Bool) : Bool :=
+  (a.target ≥ 0 && M.isAccepting a.target && !o.strictDone &&
+    (M.st a.target.toNat).arms.all (·.err)) ||
+  -- end-of-input consumed into the accepting state: no later call could report DONE
+  (fromEnd && !a.fall && a.target ≥ 0 && M.isAccepting a.target)
 
 /-- The arm a normal state takes on byte `x` inside `feed`: the first non-else arm listing `x`
     (arms are tested in list order, the first arm that lists `Else` is emitted last and
@@ -150,23 +152,30 @@ def St.elseArm (s : St) : Option Arm := s.arms.find? (fun a => a.on.contains onE
 
 def St.feedArm (s : St) (x : Nat) : Option Arm :=
   let isElse (a : Arm) : Bool := a.on.contains onElse
-  -- position of the first else-arm, which is skipped in the if-chain
+  -- the first else-arm is skipped in the if-chain; an accepting state ignores its error handling
   let rec go (arms : List Arm) (seenElse : Bool) : Option Arm :=
     match arms with
     | [] => none
     | a :: rest =>
       if isElse a && !seenElse then go rest true
+      else if s.accepting && a.err then go rest seenElse
       else if a.on.contains x then some a else go rest seenElse
   match go s.arms false with
   | some a => some a
-  | none => s.elseArm
+  | none =>
+    match s.elseArm with
+    | some a => if s.accepting && a.err then none else some a
+    | none => none
 
 /-- The arm `end()` takes: `state[End]` = first arm listing `End`, otherwise the first listing
-    `Else` (`DFState.__getitem__`). -/
+    `Else` (`DFState.__getitem__`); an accepting state ignores it when it is error handling. -/
 def St.endArm (s : St) : Option Arm :=
-  match s.arms.find? (fun a => a.on.contains symEnd) with
-  | some a => some a
-  | none => s.elseArm
+  let a := match s.arms.find? (fun a => a.on.contains symEnd) with
+    | some a => some a
+    | none => s.elseArm
+  match a with
+  | some a => if s.accepting && a.err then none else some a
+  | none => none
 
 /-! ### Trees -/
 
@@ -245,7 +254,7 @@ def fallOut (srcAccepting : Bool) (x : Nat) (st : Int) (adv : Nat) : CTree :=
 def Machine.armTree (M : Machine) (o : SemOpts) (si : Int) (src : St) (a : Arm) (x : Nat) (adv : Nat)
     (redispatch : Int → Nat → CTree) : CTree :=
   let fromEnd := x = symEnd
-  let imm := M.immediateDone o a
+  let imm := M.immediateDone o a fromEnd
   let early := a.acts.mayYield && !fromEnd && !a.fall && !imm
   let adv' := if early then adv + 1 else adv
   let c : ArmCtx := { o := o, x := x, adv := adv', redispatch := redispatch }
